@@ -63,6 +63,8 @@ pub fn alphabet() -> Alphabet {
         // writer of the other), and a load whose address mentions its own destination (pointer chasing)
         il::Operation::intrinsic(il::Intrinsic::new("rdxy", "rdxy", vec![], Some(vec![ex(), ey()]), Some(vec![]), vec![0x91])),
         il::Operation::load(x(), E::add(il::expr_const(0x10, 64), E::zext(64, ex()).unwrap()).unwrap()),
+        // a placeholder no-op: the assignment it wraps never executes, so it defines, kills and uses nothing
+        il::Operation::placeholder(il::Operation::assign(x(), c(2))),
     ];
     let guards = vec![(E::cmpeq(ex(), c(0)).unwrap(), E::cmpneq(ex(), c(0)).unwrap())];
     Alphabet { ops, guards, guards3: vec![] }
